@@ -135,62 +135,72 @@ def run_session_ops(ops, use_handler=True):
         for op in ops:
             o = op["op"]
             e = dict(op)
-            if o == "Create":
-                sid = sm.create_session({"name": op["c"], "version": "1"}, op["v"])
-                e["ret"] = absid(sid)
-            elif o == "Get":
-                info = sm.get_session(realid(op["s"]))
-                e["ret"] = "null" if info is None else rec(realid(op["s"]), info)
-            elif o == "Touch":
-                e["ret"] = bool(sm.update_activity(realid(op["s"])))
-            elif o == "Delete":
-                e["ret"] = bool(sm.delete_session(realid(op["s"])))
-            elif o == "Cleanup":
-                e["ret"] = int(sm.cleanup_expired(op["a"]))
-            elif o == "List":
-                m = sm.list_sessions()
-                e["ret"] = sorted(rec(k, v) for k, v in m.items())
-                # mutate the returned map: add an entry, remove every other
-                for k in list(m)[::2]:
-                    del m[k]
-                m["intruder"] = None
-            elif o == "Count":
-                e["ret"] = int(sm.get_session_count())
-            elif o == "Clear":
-                e["ret"] = int(sm.clear_all_sessions())
-            elif o == "Tick":
-                clock.now += op["d"]
-            elif o == "HandleInitialize":
-                nreq += 1
-                params = {"clientInfo": {"name": op["c"], "version": "1"}, "capabilities": {}}
-                v = op["v"]
-                if v != "absent":
-                    params["protocolVersion"] = op.get("vreal", v)
-                msg = parse_message({"jsonrpc": "2.0", "id": nreq, "method": "initialize", "params": params})
-                sid_arg = realid(op["s"]) if op.get("s") else None
-                resp, new_sid = loop.run_until_complete(ph.handle_message(msg, sid_arg))
-                d = resp.model_dump(exclude_none=True) if resp is not None else {}
-                if isinstance(d.get("result"), dict) and new_sid:
-                    e["ret"] = {"kind": "result", "version": enc_version(d["result"].get("protocolVersion")), "sid": absid(new_sid), "idok": d.get("id") == nreq}
+            try:
+                if o == "Create":
+                    sid = sm.create_session({"name": op["c"], "version": "1"}, op["v"])
+                    e["ret"] = absid(sid)
+                elif o == "Get":
+                    info = sm.get_session(realid(op["s"]))
+                    e["ret"] = "null" if info is None else rec(realid(op["s"]), info)
+                elif o == "Touch":
+                    e["ret"] = bool(sm.update_activity(realid(op["s"])))
+                elif o == "Delete":
+                    e["ret"] = bool(sm.delete_session(realid(op["s"])))
+                elif o == "Cleanup":
+                    e["ret"] = int(sm.cleanup_expired(op["a"]))
+                elif o == "List":
+                    m = sm.list_sessions()
+                    e["ret"] = sorted(rec(k, v) for k, v in m.items())
+                    # mutate the returned map: add an entry, remove every other
+                    for k in list(m)[::2]:
+                        del m[k]
+                    m["intruder"] = None
+                elif o == "Count":
+                    e["ret"] = int(sm.get_session_count())
+                elif o == "Clear":
+                    e["ret"] = int(sm.clear_all_sessions())
+                elif o == "Tick":
+                    clock.now += op["d"]
+                elif o == "HandleInitialize":
+                    nreq += 1
+                    params = {"clientInfo": {"name": op["c"], "version": "1"}, "capabilities": {}}
+                    v = op["v"]
+                    if v != "absent":
+                        params["protocolVersion"] = op.get("vreal", v)
+                    msg = parse_message({"jsonrpc": "2.0", "id": nreq, "method": "initialize", "params": params})
+                    sid_arg = realid(op["s"]) if op.get("s") else None
+                    resp, new_sid = loop.run_until_complete(ph.handle_message(msg, sid_arg))
+                    d = resp.model_dump(exclude_none=True) if resp is not None else {}
+                    if isinstance(d.get("result"), dict) and new_sid:
+                        e["ret"] = {"kind": "result", "version": enc_version(d["result"].get("protocolVersion")), "sid": absid(new_sid), "idok": d.get("id") == nreq}
+                    else:
+                        e["ret"] = {"kind": "error", "version": "", "sid": 0, "idok": d.get("id") == nreq}
+                    e["v"] = enc_version(op.get("vreal", v)) if v != "absent" else "absent"
+                elif o == "HandleRequest":
+                    nreq += 1
+                    if op.get("m", True):
+                        body = {"jsonrpc": "2.0", "id": nreq, "method": op.get("method", "ping")}
+                        if op.get("notif"):
+                            del body["id"]
+                        msg = parse_message(body)
+                    else:
+                        msg = parse_message({"jsonrpc": "2.0", "id": nreq, "result": {}})
+                    try:
+                        loop.run_until_complete(ph.handle_message(msg, realid(op["s"])))
+                    except Exception:  # judged by C08, not here
+                        pass
                 else:
-                    e["ret"] = {"kind": "error", "version": "", "sid": 0, "idok": d.get("id") == nreq}
-                e["v"] = enc_version(op.get("vreal", v)) if v != "absent" else "absent"
-            elif o == "HandleRequest":
-                nreq += 1
-                if op.get("m", True):
-                    body = {"jsonrpc": "2.0", "id": nreq, "method": op.get("method", "ping")}
-                    if op.get("notif"):
-                        del body["id"]
-                    msg = parse_message(body)
-                else:
-                    msg = parse_message({"jsonrpc": "2.0", "id": nreq, "result": {}})
-                try:
-                    loop.run_until_complete(ph.handle_message(msg, realid(op["s"])))
-                except Exception:  # judged by C08, not here
-                    pass
-            else:
-                raise ValueError(o)
-            e["store"] = store()
+                    raise ValueError(o)
+            except ValueError:
+                raise
+            except Exception as ex:
+                # whatever the store / the handler raised or returned in a shape the driver cannot
+                # project is an observation (the specification will not be able to explain it)
+                e["ret"] = "raised:" + type(ex).__name__
+            try:
+                e["store"] = store()
+            except Exception as ex:
+                e["store"] = "broken:" + type(ex).__name__
             e["clock"] = clock.now
             evs.append(e)
         loop.close()
@@ -298,7 +308,16 @@ def run_dispatch_cases(cases):
         if v and isinstance(body.get("params"), dict) and c["pshape"] == "ok":
             body["params"] = dict(body["params"], _meta={"progressToken": v}, extra={"n": None, "l": [v]})
         try:
-            if c.get("typed"):
+            if mclass.startswith("stray"):
+                from chuk_mcp.protocol.messages.json_rpc_message import JSONRPCMessage
+                rid = concrete_id(c["idc"], v)
+                one = parse_message({"jsonrpc": "2.0", "id": rid, "result": {"x": 1}})
+                msg = {"strayResponse": one,
+                       "strayError": parse_message({"jsonrpc": "2.0", "id": rid, "error": {"code": -32000, "message": "m"}}),
+                       "strayList": [one, parse_message({"jsonrpc": "2.0", "method": "ping", "id": rid})],
+                       "strayEmptyList": [],
+                       "strayBare": JSONRPCMessage(jsonrpc="2.0")}[mclass]
+            elif c.get("typed"):
                 msg = (JSONRPCRequest if c["kind"] == "request" else JSONRPCNotification).model_validate(body)
             else:
                 msg = parse_message(body)
